@@ -35,10 +35,10 @@ structure WfParams where
   initKeys : List String := ["init", "static_init"]
   unitInit : String := "%unit_init"
 
-def bodyKey (P : WfParams) (k : String) : Bool := k.endsWith "body" || P.bodyKeys.contains k
+def bodyKey (P : WfParams) (k : String) : Bool := strEndsWith k "body" || P.bodyKeys.contains k
 
 /-- the rows `add_main_func` leaves at the top level -/
-def keepsTop (P : WfParams) (op : String) : Bool := op.endsWith "_decl" || P.exclude.contains op
+def keepsTop (P : WfParams) (op : String) : Bool := strEndsWith op "_decl" || P.exclude.contains op
 
 def isExec (P : WfParams) (op : String) : Bool := !keepsTop P op && !P.nonExec.contains op
 
